@@ -59,7 +59,7 @@ def showRmUpdate (cfg : Upd.Cfg) (bs : Bytes) : String :=
   | .err => "err"
   | .panic => "panic"
 
-def observeFull (cfg : Upd.Cfg) (bs : Bytes) : String :=
+def observeFull0 (cfg : Upd.Cfg) (bs : Bytes) : String :=
   match fromOctets deps bs with
   | .err => "err"
   | .panic => "panic"
@@ -110,6 +110,15 @@ def embeddedTypeWrong (bs : Bytes) : Bool :=
   else false
 
 def containsSub (s sub : String) : Bool := (s.splitOn sub).length > 1
+
+/-- the observation, followed by the harness' iterator-protocol verdict of the message's own iterators
+(stats(), information_tlvs(), information(), parameters() / capabilities() / multiprotocol_ids() of the
+embedded OPENs: harness/src/common.rs `iter_protocol`) unless an accessor group panicked.  The model's
+iterators are `next` sequences, every default consumption of which observes `collect`
+(Rc/Lemmas/IterProto.lean): the model's answer is the constant `proto=ok`. -/
+def observeFull (cfg : Upd.Cfg) (bs : Bytes) : String :=
+  let r := observeFull0 cfg bs
+  if r == "err" || r == "panic" || containsSub r "=panic" || r.endsWith " panic" then r else r ++ " proto=ok"
 
 /-- `unspec`: on a message whose embedded PDU has the wrong BGP type (not well-formed; the property
 does not say whether it is accepted) only the class is printed – unless something panicked -/
